@@ -11,7 +11,7 @@ units = {'C01': 'channel_holder, enforcement', 'C02': 'channel_holder, channel_c
          'C11': 'channel_*, node_restore, node_restore_channels, node_ids, node_payments',
          'C12': 'velocity, velocity_window, node_restore, node_payments', 'C13': 'tracker, oracle', 'C14': 'monitor_changes',
          'C15': 'monitor_done, monitor_changes, node_ids, node_restore, node_restore_channels',
-         'C16': 'kvv_memory, kvv_cloud, kvv_redb', 'C17': 'hmac, hmac_lss', 'C18': 'keys, node_restore_channels'}
+         'C16': 'kvv_memory, kvv_cloud, kvv_redb', 'C17': 'hmac, hmac_lss', 'C18': 'keys, node_restore_channels', 'C19': 'psbt_stream'}
 by = {c['id']: c for c in m['checks']}
 out = ['## 4. Per-property status\n',
        '"proved" = Verus discharges the stated contract on the real body, extracted from `/repo` on that run. "assumed" = trusted\n'
@@ -22,7 +22,7 @@ for i in sorted(units):
     c = by[i]
     out.append("**%s** (units `%s`). Proved: %s\nNot covered / assumed: %s\n" % (i, units[i], c['text'].replace('Verus proves', '', 1).strip(), c['note']))
 na = {n['property_id']: n['reason'] for n in m['not_applicable']}
-out.append("**C19** not applicable: %s.\n\n**C20** not applicable: %s. The sequential mutex model (R11) used for C15/C16 says nothing about interleavings.\n" % (na['C19'], na['C20']))
+out.append("**C20** not applicable: %s. The sequential mutex model (R11) used for C15/C16 says nothing about interleavings.\n" % (na['C20'],))
 p = os.path.join(root, "DESIGN.md")
 s = open(p).read()
 i = s.index("## 4. Per-property status")
